@@ -124,7 +124,7 @@ Proof. exact fmt2_preserves_tree. Qed.
 Print Assumptions C08_fmt2_preserves_tree.
 
 (* but on trees WITHOUT ParenExpr nodes (format.Node on programmatic ASTs) V2 loses
-   a parenthesis (K3) and a grouping (K4) *)
+   a parenthesis (K25) and a grouping (K26) *)
 Theorem C08_print2_unary_postfix_refuted :
   let e := ESel (EUn SUB ex_a) (TIdent [98%N]) in
   valid e /\ noparen e /\
